@@ -93,7 +93,8 @@ struct FamilySpec {
     std::vector<long> blocks;
     std::string str() const {
         std::string s = kind + ":p=" + std::to_string(chunks);
-        if (kind == "seam") s += ":n=" + std::to_string(n) + ":seam=" + std::to_string(seam) + ":w=" + std::to_string(width) + ":word=" + std::to_string(word);
+        if (kind == "density") s += ":rep=" + std::to_string(rep) + ":w=" + std::to_string(width) + ":word=" + std::to_string(word);
+        else if (kind == "seam") s += ":n=" + std::to_string(n) + ":seam=" + std::to_string(seam) + ":w=" + std::to_string(width) + ":word=" + std::to_string(word);
         else { s += ":rep=" + std::to_string(rep) + ":b="; for (size_t i = 0; i < blocks.size(); ++i) s += (i ? "." : "") + std::to_string(blocks[i]); }
         return s;
     }
@@ -142,6 +143,11 @@ template<typename K> bool generate_family(const FamilySpec &f, size_t eps, std::
             }
             for (long j = -f.width; j <= f.width; ++j) { long pos = long(seam_pos) + j; if (pos >= 0 && size_t(pos) < n) focus.push_back(size_t(pos)); }
         }
+        if (f.seam == 0) {   // the end of the array is a seam too: a chunked builder must not lose or mispredict the tail
+            long w = f.word;
+            for (long j = 0; j < f.width; ++j, w /= 4) { size_t pos = n - size_t(f.width) + size_t(j); if (pos >= 1 && pos < n) letter[pos] = int(w % 4); }
+            for (long j = 1; j <= 2 * f.width && size_t(j) <= n; ++j) focus.push_back(n - size_t(j));
+        }
         W cur = 1000; keys[0] = cur;
         for (size_t i = 1; i < n; ++i) {
             W d = 3;
@@ -164,6 +170,20 @@ template<typename K> bool generate_family(const FamilySpec &f, size_t eps, std::
                 if (r < 2 || r + 2 >= f.rep) { focus.push_back(first_pos); focus.push_back(keys.size() - 1); if (keys.size() - first_pos > 2) focus.push_back(first_pos + 1); }
             }
         if (keys.size() <= 3000) { focus.clear(); for (size_t i = 0; i < keys.size(); ++i) if (i == 0 || keys[i] != keys[i - 1]) focus.push_back(i); }
+    } else if (f.kind == "density") {
+        // clusters of 4 keys with stride 1 separated by a gap 40*m; the multiplier m changes every `rep` clusters following the digits of
+        // `word` (base 4 -> multipliers 1,2,4,8), `width` digits: many short bottom segments and several segments on the upper levels.
+        long w = f.word; W cur = 1000;
+        const W mult[4] = {1, 2, 4, 8};
+        for (long d = 0; d < f.width; ++d, w /= 4) {
+            for (long c = 0; c < f.rep; ++c) {
+                size_t first_pos = keys.size();
+                for (int j = 0; j < 4; ++j) { cur += 1; keys.push_back(cur); }
+                cur += 40 * mult[w % 4];
+                if (c < 3 || c + 3 >= f.rep || c % 37 == 0) { focus.push_back(first_pos); focus.push_back(first_pos + 3); }
+            }
+        }
+        if (cur > hi) return false;
     } else return false;
 
     data.resize(keys.size());
